@@ -20,26 +20,26 @@ The object-model clauses are in Properties/C05.lean (`Dom.load`).
 namespace Diffx.C08
 open Diffx Diffx.Reader
 
-/-- the environment answers every call (no `missing`): true of CPython -/
-def EnvTotal (env : Env) : Prop :=
-  (∀ n q, env.canon n ≠ .missing q) ∧ (∀ n t q, env.encode n t ≠ .missing q) ∧
-  (∀ n b q, env.decode n b ≠ .missing q) ∧ (∀ t q, env.loadsText t ≠ .missing q) ∧
-  (∀ b q, env.loadsBytes b ≠ .missing q) ∧ (∀ j q, env.dumps j ≠ .missing q)
+/-- the environment answers every call (no `missing`): true of CPython.
+Defined in `Lemmas/ReaderTotal.lean` (the lemma file cannot import this one):
+```
+(∀ n q, env.canon n ≠ .missing q) ∧ (∀ n t q, env.encode n t ≠ .missing q) ∧
+(∀ n b q, env.decode n b ≠ .missing q) ∧ (∀ t q, env.loadsText t ≠ .missing q) ∧
+(∀ b q, env.loadsBytes b ≠ .missing q) ∧ (∀ j q, env.dumps j ≠ .missing q)
+``` -/
+abbrev EnvTotal (env : Env) : Prop := Reader.EnvTotal env
 
-/-- no codec encodes LF / CRLF as the empty byte string (after BOM removal) -/
-def NlNonempty (env : Env) (cfg : Config) : Prop :=
-  ∀ e dos raw b, env.encode e (nlText dos) = .ok raw → stripBom env cfg raw (some e) = .ok b → b ≠ []
+/-- no codec encodes LF / CRLF as the empty byte string (after BOM removal):
+`∀ e dos raw b, env.encode e (nlText dos) = .ok raw → stripBom env cfg raw (some e) = .ok b → b ≠ []` -/
+abbrev NlNonempty (env : Env) (cfg : Config) : Prop := Reader.NlNonempty env cfg
 
 /-- every encoded newline contains the byte LF (false for EBCDIC code pages:
-known finding D21) -/
-def NlHasLF (env : Env) (cfg : Config) : Prop :=
-  ∀ e dos raw b, env.encode e (nlText dos) = .ok raw → stripBom env cfg raw (some e) = .ok b → (10 : UInt8) ∈ b
+known finding D21):
+`∀ e dos raw b, env.encode e (nlText dos) = .ok raw → stripBom env cfg raw (some e) = .ok b → (10 : UInt8) ∈ b` -/
+abbrev NlHasLF (env : Env) (cfg : Config) : Prop := Reader.NlHasLF env cfg
 
-/-- decoding reflects a trailing newline (codec law L6) -/
-def DecodeEnd (env : Env) : Prop :=
-  ∀ e c nl t nlT, env.decode e c = .ok t → env.decode e nl = .ok nlT → endsWith t nlT = true → endsWith c nl = true
-
-def countLF (d : Bytes) : Nat := d.count 10
+/-- `d.count 10` -/
+abbrev countLF (d : Bytes) : Nat := Reader.countLF d
 
 /-- **Termination is real**: the recursion budget is never the reason to stop. -/
 theorem C08_no_fuel_exhaustion (env : Env) (cfg : Config) (chunk : Nat) (data : Bytes) :
@@ -56,16 +56,16 @@ theorem C08_outcome (env : Env) (cfg : Config) (chunk : Nat) (data : Bytes)
 bytes), for codecs whose newline contains LF.  `…_partial`: the full statement
 (no `NlHasLF`) is false of code and model — witness below, known finding D21. -/
 theorem C08_linenum_partial (env : Env) (cfg : Config) (chunk : Nat) (hc : 0 < chunk) (data : Bytes)
-    (hl : NlHasLF env cfg) (hd : DecodeEnd env) (n : Nat) (c : Option Nat)
+    (hl : NlHasLF env cfg) (n : Nat) (c : Option Nat)
     (h : (readAll env cfg chunk data).2 = .parseError n c) :
     n ≤ countLF data :=
-  readAll_linenum_le env cfg chunk hc data hl hd n c h
+  readAll_linenum_le env cfg chunk hc data hl n c h
 
 /-- every yielded record starts on a line within the input as well -/
 theorem C08_record_lines_partial (env : Env) (cfg : Config) (chunk : Nat) (hc : 0 < chunk) (data : Bytes)
-    (hl : NlHasLF env cfg) (hd : DecodeEnd env) :
+    (hl : NlHasLF env cfg) :
     ∀ r ∈ (readAll env cfg chunk data).1, r.line < countLF data :=
-  readAll_record_lines env cfg chunk hc data hl hd
+  readAll_record_lines env cfg chunk hc data hl
 
 /-- a column, when reported, is a position inside the offending header line:
 it comes from `header.index(pair)`, so it is smaller than the input length -/
